@@ -78,6 +78,9 @@ def check(repo: Repo, rep: Report) -> None:
     from . import sync_common as SY
     rep.rule("G5-registered-before-subscribe", "the duration subscription's holder is registered before the duration sequence is subscribed", floor=1)
     SY.rule_registered_before_subscribe(rep, "G5-registered-before-subscribe", root)
+    for rel_, q_ in (("reactivex/observable/groupedobservable.py", "GroupedObservable.__init__.subscribe"),
+                     ("reactivex/observable/groupedobservable.py", "GroupedObservable._subscribe_core")):
+        TC.rule_scheduler_forwarded(rep, "F0-scheduler-forwarded", repo.fn(rel_, q_))
     sl = signature(model_of(repo), root)["source#0"]
     for slot, pat, kind in (("on_error", r"^e*E$", "error"), ("on_completed", r"^c*C$", "completion")):
         v = sl[slot]
